@@ -654,6 +654,18 @@ def h_roundtrip(d: Decl, props):
     return Harness(d, 'serde round trip', props, body, clause='forall obtainable v: deserialize(serialize(v)) == Ok(v) through a format that round-trips the inner value')
 
 
+def h_roundtrip_string(d: Decl, props, lit, tag, bounded):
+    S = concrete_self(d)
+    body = ('        let raw = String::from(%s);\n' % lit + obtain(d, 'v', 'raw.clone()') +
+            '        unsafe { sfmt::EXPECT_NAME = "%s"; sfmt::SER_FAIL = false; sfmt::NEWTYPE_CALLS = 0; sfmt::LAST_STR = None; }\n' % d.name +
+            '        let rec = serde::Serialize::serialize(&v, sfmt::RecSer { depth: 0 }).unwrap();\n'
+            '        let carried: String = unsafe { sfmt::LAST_STR.take() }.unwrap();\n'
+            '        let r = <%s as serde::Deserialize>::deserialize(sfmt::Fmt { v: carried, ok: true, mode: 0 });\n' % S +
+            '        match r { Ok(w) => assert!(w.into_inner() == v.into_inner(), "deserialize(serialize(v)) == v"), Err(_) => assert!(false, "a serialized valid value must deserialize") }\n')
+    return Harness(d, 'serde round trip (%s)' % tag, props, body, bounded=bounded,
+                   clause='deserialize(serialize(v)) == Ok(v) through a format that hands the string back as an owned string (as JSON does for escaped text)')
+
+
 def serde_decls(tier='quick'):
     out = []
     types = (INT_TYPES + FLOAT_TYPES) if tier == 'thorough' else ['i32', 'u8', 'i64', 'u16', 'f32', 'f64']
@@ -1180,6 +1192,8 @@ def harnesses_for(prop, tier, seed):
                     hs.append(h_deserialize(d, [prop], bounded=B, concrete=(lit, mode, ok, tag)))
             else:
                 hs.append(h_serialize(d, [prop], concrete=('" ab "', 'ab'), bounded=B))
+                hs.append(h_roundtrip_string(d, [prop], '" a\\"b "', 'text with a quote', B))
+                hs.append(h_roundtrip_string(d, [prop], '"x"', 'x', B))
         decls = decls + sdecls
     elif prop == 'C05':
         from .kani_serde import serde_items_expanded
